@@ -270,9 +270,9 @@ REGEN_CALLS = {
     "Collapse": ["Gem", "GemOps"], "Wrap": ["Collapse", "Block", "Gem", "GemOps"], "Justify": ["Collapse", "Gem", "GemOps"],
     "Combine": ["Block", "Gem", "GemOps"], "Table": ["Align", "Block", "Gem", "GemOps"], "Options": ["Gem", "GemOps"],
     "Chars": ["Gem"], "Edit": ["Chars", "Gem"], "Apply": ["Lines"], "Paras": ["Lines"],
-    "WrapOpts": ["Wrap", "Paras", "Options", "Block"], "IndentOpts": ["Apply", "Paras", "Options"],
+    "WrapOpts": ["Wrap", "Paras", "Options", "Block", "AffixPlaceholder"], "IndentOpts": ["Apply", "Paras", "Options"],
     "InsertTable": ["Table", "Edit", "Options"], "AlignOpts": ["Align", "Apply", "Paras", "Block", "Options"],
-    "JustifyOpts": ["Justify", "Apply", "Paras", "Block", "Lines", "Commit", "Chars", "Options"],
+    "JustifyOpts": ["Justify", "Apply", "Paras", "Block", "Lines", "Commit", "Chars", "Options", "AffixPlaceholder"],
     "TwoCol": ["Wrap", "Combine", "Edit", "Options", "Block"], "DefTable": ["Wrap", "Combine", "BlockOps", "Edit", "Options"],
 }
 # C02: the class a code point "effectively" carries is the one gem.Split uses; C03: every counting, indexing and
